@@ -63,6 +63,30 @@ func LowerWith(b *B, blk *Block) *Lowered {
 }
 
 func (lw *Lowered) lowerTop(b *B, blk *Block) {
+	defer func() {
+		// data objects read by conditions anywhere (also inside sub-processes)
+		// are declared on the process itself
+		used := map[string]bool{}
+		b.G.AllFlows(func(f *Flow, _ *Graph) {
+			var walk func(c *Cond)
+			walk = func(c *Cond) {
+				if c == nil {
+					return
+				}
+				if c.Op == "dobj" {
+					used[c.Var] = true
+				}
+				walk(c.L)
+				walk(c.R)
+			}
+			walk(f.Cond)
+		})
+		for _, n := range DataObjPool {
+			if used[n] {
+				b.G.DataObjects = append(b.G.DataObjects, n)
+			}
+		}
+	}()
 	st := b.Add(KStart)
 	entry, exit := lw.lower(b, blk)
 	if entry == nil {
@@ -324,6 +348,10 @@ type GenOpts struct {
 	NoEarlyEnd bool
 	XPath      bool // allow xpath conditions
 	AllKinds   bool // draw all nine task kinds
+	// DataObjConds: some conditions read a boolean data object (pool
+	// DataObjPool, declared at process level with id != name) through
+	// getDataObject(name); such flows carry language="expr" explicitly
+	DataObjConds bool
 }
 
 type genCtx struct {
@@ -394,10 +422,24 @@ func (c *genCtx) seq(t *rapid.T, depth int, top bool) *Block {
 
 func (c *genCtx) branchConds(t *rapid.T, blk *Block, n int) {
 	for i := 0; i < n; i++ {
-		blk.Conds = append(blk.Conds, GenCond(t, 1))
+		cond := GenCond(t, 1)
+		if c.o.DataObjConds && rapid.IntRange(0, 5).Draw(t, "dataObjectCond") == 0 {
+			do := &Cond{Op: "dobj", Var: rapid.SampledFrom(DataObjPool).Draw(t, "dataObject")}
+			switch rapid.IntRange(0, 2).Draw(t, "doShape") {
+			case 0:
+				cond = do
+			case 1:
+				cond = &Cond{Op: "not", L: do}
+			default:
+				cond = &Cond{Op: "or", L: do, R: cond}
+			}
+		}
+		blk.Conds = append(blk.Conds, cond)
 		blk.Informal = append(blk.Informal, rapid.IntRange(0, 9).Draw(t, "informal") == 0)
 		lang := ""
-		if c.o.XPath {
+		if cond.UsesDataObject() {
+			lang = "expr"
+		} else if c.o.XPath {
 			lang = rapid.SampledFrom([]string{"", "", "expr", "xpath"}).Draw(t, "lang")
 		} else {
 			lang = rapid.SampledFrom([]string{"", "", "expr"}).Draw(t, "lang")
